@@ -774,6 +774,19 @@ fn run_shard(args: &Args, task: usize) {
             t: rng.range(2, 3) as usize, n: rng.range(2 << 20, 3 << 20) as usize, kind: 5, dseed: rng.next(), size_hint: 0 };
         large_case(&c, &mut rep, &mut pool_l);
     }
+    // ---- "mid prefix, fast hashers" class: 100-400 KiB of static-dictionary text at quality 2-4
+    // (BasicHasher H2/H3/H4/H54: the only kinds whose dictionary lookup is on at these qualities is
+    // quality 2, but 3 and 4 share set_custom_dictionary's quality-dependent branches), window 2^17..2^22,
+    // 2-6 jobs: every job after the first starts 64 KiB or more into the input with its WHOLE prefix
+    // inside the window, so its stream position (=> max_distance => meaning of a static-dictionary
+    // distance) must be the untruncated prefix length. Cheap (milliseconds per case).
+    let nmid = if thorough { 24 } else { 2 };
+    for k in 0..nmid {
+        let mut rng = Rng::new(seed ^ 0x31D0 ^ ((task as u64) << 20) ^ ((k as u64) << 36));
+        let c = Case { q: *rng.pick(&[2, 2, 2, 3, 4, 4]), lgwin: rng.range(17, 22) as i32, large: false, favor: rng.chance(1, 2), catable: rng.chance(1, 4), appendable: rng.chance(1, 4), magic: rng.chance(1, 4),
+            t: rng.range(2, 6) as usize, n: rng.range(100 << 10, 400 << 10) as usize, kind: 5, dseed: rng.next(), size_hint: 0 };
+        large_case(&c, &mut rep, &mut pool_l);
+    }
     // ---- "window edge" class: some job k > 0 starts EXACTLY at (1 << lgwin) - 16 + d, d in -2..=2 —
     // the length where the job's prefix stops fitting the window (dictionary truncation, the shared
     // index of favor_cpu_efficiency being kept or dropped). Two sites decide this independently
